@@ -131,7 +131,7 @@ class TapMixin:
         self.step_no += 1
         self.in_step = True
         self._sentinel_next = False    # run() places its stop before the first step
-        head = self._queue[0][3] if self._queue else None
+        head = self._queue[0][-1] if self._queue else None      # (the event is the last field of an agenda entry)
         try:
             n0 = len(self.log)
             super().step()
